@@ -4,6 +4,7 @@ import (
 	"fmt"
 	"go/ast"
 	"go/constant"
+	"go/token"
 	"go/types"
 	"regexp"
 	"sort"
@@ -28,6 +29,165 @@ var ioFailEdge = regexp.MustCompile(`^(\(\*Conn\)\.readLine\(.*\)#1 != nil|\(\*t
 type replyCounter struct {
 	c    *Ctx
 	memo map[*ssa.Function]*CountResult
+	// helpers that reply and report through a constant bool result whether they did: per helper the reply counts of
+	// its true-returns and false-returns; per call site the branch that tests the result
+	bh   map[*ssa.Function]*boolHelper
+	corr map[*ssa.Function]map[*ssa.BasicBlock]*corrBranch
+}
+
+type boolHelper struct {
+	idx             int // index of the bool result
+	onTrue, onFalse CountResult
+	ok              bool
+}
+
+type corrBranch struct { // the If in this block tests a bool helper's result
+	h       *boolHelper
+	negated bool
+	call    ssa.Instruction
+}
+
+// boolHelperOf: g is an unexported package function all of whose returns give a constant bool at one result index;
+// the number of final replies on the paths to its true-returns and to its false-returns is computed separately.
+func (rc *replyCounter) boolHelperOf(g *ssa.Function) *boolHelper {
+	if rc.bh == nil {
+		rc.bh = map[*ssa.Function]*boolHelper{}
+	}
+	if h, ok := rc.bh[g]; ok {
+		return h
+	}
+	h := &boolHelper{idx: -1}
+	rc.bh[g] = h
+	if isExported(g) || g.Parent() != nil || len(g.Blocks) == 0 {
+		return h
+	}
+	res := g.Signature.Results()
+	for i := 0; i < res.Len(); i++ {
+		if isBoolType(res.At(i).Type()) {
+			h.idx = i
+		}
+	}
+	if h.idx < 0 {
+		return h
+	}
+	val := map[ssa.Instruction]bool{}
+	allConst := true
+	allInstrs(g, func(in ssa.Instruction) {
+		r, ok := in.(*ssa.Return)
+		if !ok || in.Block() == g.Recover {
+			return
+		}
+		rv := returnedValues(r)
+		if h.idx >= len(rv) {
+			allConst = false
+			return
+		}
+		b, isK := constBool(rv[h.idx])
+		if !isK {
+			allConst = false
+			return
+		}
+		val[in] = b
+	})
+	if !allConst || len(val) == 0 {
+		return h
+	}
+	cnt := func(want bool) CountResult {
+		return CountPathsOpt(g, CountOpts{SkipEdge: rc.skip, Count: rc.replies, ExitOK: func(ret ssa.Instruction) bool { return val[ret] != want }})
+	}
+	h.onTrue, h.onFalse = cnt(true), cnt(false)
+	h.ok = h.onTrue.Max >= 0 && h.onFalse.Max >= 0
+	return h
+}
+
+// corrBranches: call sites in f of bool helpers whose bool result is used by exactly one If (possibly negated).
+func (rc *replyCounter) corrBranches(f *ssa.Function) map[*ssa.BasicBlock]*corrBranch {
+	if rc.corr == nil {
+		rc.corr = map[*ssa.Function]map[*ssa.BasicBlock]*corrBranch{}
+	}
+	if m, ok := rc.corr[f]; ok {
+		return m
+	}
+	m := map[*ssa.BasicBlock]*corrBranch{}
+	rc.corr[f] = m
+	allInstrs(f, func(in ssa.Instruction) {
+		call, ok := in.(*ssa.Call)
+		if !ok {
+			return
+		}
+		g := staticCallee(&call.Call)
+		if g == nil || !inSmtp(g) || g == f {
+			return
+		}
+		h := rc.boolHelperOf(g)
+		if !h.ok {
+			return
+		}
+		// the bool result: the call value itself (single result) or its extract
+		var bv ssa.Value
+		if g.Signature.Results().Len() == 1 {
+			bv = call
+		} else {
+			for _, ref := range *call.Referrers() {
+				if ex, ok := ref.(*ssa.Extract); ok && ex.Index == h.idx {
+					if bv != nil {
+						return
+					}
+					bv = ex
+				}
+			}
+		}
+		if bv == nil {
+			return
+		}
+		neg := false
+		refs := *bv.Referrers()
+		if len(refs) != 1 {
+			return
+		}
+		if u, ok := refs[0].(*ssa.UnOp); ok && u.Op == token.NOT {
+			neg = true
+			refs = *u.Referrers()
+			if len(refs) != 1 {
+				return
+			}
+		}
+		iff, ok := refs[0].(*ssa.If)
+		if !ok || len(iff.Block().Succs) != 2 {
+			return
+		}
+		m[iff.Block()] = &corrBranch{h: h, negated: neg, call: in}
+	})
+	return m
+}
+
+// edgeAdd: the replies a correlated bool helper has emitted, accounted on the branch that tests its result.
+func (rc *replyCounter) edgeAdd(f *ssa.Function) func(from, to *ssa.BasicBlock) (int, int) {
+	m := rc.corrBranches(f)
+	return func(from, to *ssa.BasicBlock) (int, int) {
+		cb := m[from]
+		if cb == nil {
+			return 0, 0
+		}
+		truth := from.Succs[0] == to
+		if cb.negated {
+			truth = !truth
+		}
+		if truth {
+			return cb.h.onTrue.Min, cb.h.onTrue.Max
+		}
+		return cb.h.onFalse.Min, cb.h.onFalse.Max
+	}
+}
+
+// correlated: the call's replies are accounted on the branch edges (edgeAdd), not at the call.
+func (rc *replyCounter) correlated(in ssa.Instruction) bool {
+	for _, cb := range rc.corrBranches(in.Parent()) {
+		if cb.call == in {
+			return true
+		}
+	}
+	return false
 }
 
 func isIntermediateCode(code int64) bool { return code == 354 || code == 334 }
@@ -60,6 +220,9 @@ func (rc *replyCounter) replies(in ssa.Instruction) (int, int) {
 		if g := staticCallee(cc); g != nil && inSmtp(g) && qualFuncName(g) != "(*Conn).writeResponse" && g.Blocks != nil {
 			if qualFuncName(g) == "(*Conn).protocolError" {
 				return 1, 1
+			}
+			if rc.correlated(in) {
+				return 0, 0
 			}
 			r := rc.count(g)
 			return r.Min, r.Max
@@ -173,6 +336,7 @@ func (rc *replyCounter) count(f *ssa.Function) CountResult {
 	}
 	res := CountPathsOpt(f, CountOpts{
 		SkipEdge: rc.skip,
+		EdgeAdd:  rc.edgeAdd(f),
 		Count: func(in ssa.Instruction) (int, int) {
 			lo, hi := 0, 0
 			if bonus[in] {
@@ -192,6 +356,9 @@ func (rc *replyCounter) count(f *ssa.Function) CountResult {
 				if g := staticCallee(cc); g != nil && inSmtp(g) && qualFuncName(g) != "(*Conn).writeResponse" {
 					if qualFuncName(g) == "(*Conn).protocolError" {
 						return lo + 1, hi + 1 // the closing 500 is checked by R-closing-500
+					}
+					if rc.correlated(in) {
+						return lo, hi
 					}
 					r := rc.count(g)
 					lo += r.Min
@@ -324,7 +491,7 @@ func runC04(c *Ctx) {
 			key := funcName(f) + "/loop at " + li.header.Comment
 			if !li.overRc {
 				// the AUTH challenge loop only emits intermediate 334 replies and refusals that return
-				res := CountPathsOpt(f, CountOpts{Start: li.body, NoReturn: true, SkipEdge: rc.skip,
+				res := CountPathsOpt(f, CountOpts{Start: li.body, NoReturn: true, SkipEdge: rc.skip, EdgeAdd: rc.edgeAdd(f),
 					ExitEdge: func(from, to *ssa.BasicBlock) bool { return to == li.header },
 					Count: func(in ssa.Instruction) (int, int) {
 						return rc.replies(in)
@@ -332,7 +499,7 @@ func runC04(c *Ctx) {
 				R.Ob(key+" emits no final reply per iteration", c.P.InstrPos(li.header.Instrs[0]), li.body != nil && res.Max == 0, fmt.Sprintf("a loop that does not range over the recipients emits up to %d final replies per iteration", res.Max))
 				continue
 			}
-			res := CountPathsOpt(f, CountOpts{Start: li.body, NoReturn: true, SkipEdge: rc.skip,
+			res := CountPathsOpt(f, CountOpts{Start: li.body, NoReturn: true, SkipEdge: rc.skip, EdgeAdd: rc.edgeAdd(f),
 				ExitEdge: func(from, to *ssa.BasicBlock) bool { return to == li.header },
 				Count: func(in ssa.Instruction) (int, int) {
 					if lo, hi := rc.replies(in); hi != 0 {
